@@ -135,6 +135,9 @@ Inductive ctlact :=
 
 Inductive disr := DPass | DDeny | DDrop | DRedirect.
 
+(* allow / allow:phase / allow:request *)
+Inductive allowk := ANone | APhase | ARequest | AAll.
+
 Record rule := {
   r_id : N;
   r_phase : N;                 (* 1..5 *)
@@ -142,8 +145,18 @@ Record rule := {
   r_ctls : list ctlact;        (* ctl actions, in order *)
   r_disr : disr;
   r_status : N;                (* status: action, 0 = not given *)
-  r_nmatch : nat               (* number of matched values; 0 = the rule does not fire *)
+  r_nmatch : nat;              (* number of matched values of the (head) rule; 0 = it does not match *)
+  r_chain : list nat;          (* matched values of each chained rule, in order; [] = no chain *)
+  r_skip : nat;                (* skip:N, 0 = none *)
+  r_after : option N;          (* skipAfter:<marker> *)
+  r_allow : allowk;            (* allow action *)
+  r_marker : option N          (* Some m: this entry is `SecMarker m` (no id, never recorded) *)
 }.
+
+(* the chain matched: every chained rule matched something *)
+Definition chain_ok (r : rule) : bool := forallb (fun n => negb (Nat.eqb n 0)) (r_chain r).
+(* MatchRule gets the matched values of the head and of every chained rule *)
+Definition total_matches (r : rule) : nat := fold_left Nat.add (r_chain r) (r_nmatch r).
 
 (* status of the interruption a disruptive action asks for *)
 Definition intr_status (r : rule) : option N :=
@@ -179,29 +192,30 @@ Record tx := {
   t_audit : bool;          (* tx.audit *)
   t_matched : list fired;  (* tx.matchedRules, firing order *)
   t_cbs : list N;          (* ids passed to the error callback, in call order *)
-  t_resp : bytes           (* RESPONSE_STATUS variable *)
+  t_resp : bytes;          (* RESPONSE_STATUS variable *)
+  t_allow : allowk         (* tx.AllowType *)
 }.
 
 Definition tx_init (c : cfg) : tx :=
   {| t_ae := c_ae c; t_parts := c_parts c; t_re := c_re c; t_intr := None; t_det := None;
-     t_audit := false; t_matched := []; t_cbs := []; t_resp := [] |}.
+     t_audit := false; t_matched := []; t_cbs := []; t_resp := []; t_allow := ANone |}.
 
 Definition apply_ctl (t : tx) (a : ctlact) : tx :=
   match a with
   | CtlAudit (Some e) =>
     {| t_ae := e; t_parts := t_parts t; t_re := t_re t; t_intr := t_intr t; t_det := t_det t;
-       t_audit := t_audit t; t_matched := t_matched t; t_cbs := t_cbs t; t_resp := t_resp t |}
+       t_audit := t_audit t; t_matched := t_matched t; t_cbs := t_cbs t; t_resp := t_resp t; t_allow := t_allow t |}
   | CtlAudit None => t
   | CtlParts m =>
     match ctl_parts (t_parts t) m with
     | Some ps =>
       {| t_ae := t_ae t; t_parts := ps; t_re := t_re t; t_intr := t_intr t; t_det := t_det t;
-         t_audit := t_audit t; t_matched := t_matched t; t_cbs := t_cbs t; t_resp := t_resp t |}
+         t_audit := t_audit t; t_matched := t_matched t; t_cbs := t_cbs t; t_resp := t_resp t; t_allow := t_allow t |}
     | None => t
     end
   | CtlRuleEngine (Some e) =>
     {| t_ae := t_ae t; t_parts := t_parts t; t_re := e; t_intr := t_intr t; t_det := t_det t;
-       t_audit := t_audit t; t_matched := t_matched t; t_cbs := t_cbs t; t_resp := t_resp t |}
+       t_audit := t_audit t; t_matched := t_matched t; t_cbs := t_cbs t; t_resp := t_resp t; t_allow := t_allow t |}
   | CtlRuleEngine None => t
   end.
 
@@ -213,14 +227,14 @@ Definition interrupt (t : tx) (s : N) : tx :=
     | Some _ => t
     | None =>
       {| t_ae := t_ae t; t_parts := t_parts t; t_re := t_re t; t_intr := Some s; t_det := t_det t;
-         t_audit := t_audit t; t_matched := t_matched t; t_cbs := t_cbs t; t_resp := t_resp t |}
+         t_audit := t_audit t; t_matched := t_matched t; t_cbs := t_cbs t; t_resp := t_resp t; t_allow := t_allow t |}
     end
   | REDetect =>
     match t_det t with
     | Some _ => t
     | None =>
       {| t_ae := t_ae t; t_parts := t_parts t; t_re := t_re t; t_intr := t_intr t; t_det := Some s;
-         t_audit := t_audit t; t_matched := t_matched t; t_cbs := t_cbs t; t_resp := t_resp t |}
+         t_audit := t_audit t; t_matched := t_matched t; t_cbs := t_cbs t; t_resp := t_resp t; t_allow := t_allow t |}
     end
   | REOff => t
   end.
@@ -233,9 +247,9 @@ Definition match_rule (c : cfg) (r : rule) (t : tx) : tx :=
   let fl := rule_flags c r in
   {| t_ae := t_ae t; t_parts := t_parts t; t_re := t_re t; t_intr := t_intr t; t_det := t_det t;
      t_audit := t_audit t || snd fl;
-     t_matched := t_matched t ++ [{| f_id := r_id r; f_log := fst fl; f_audit := snd fl; f_nmatch := r_nmatch r |}];
+     t_matched := t_matched t ++ [{| f_id := r_id r; f_log := fst fl; f_audit := snd fl; f_nmatch := total_matches r |}];
      t_cbs := if c_cb c && fst fl then t_cbs t ++ [r_id r] else t_cbs t;
-     t_resp := t_resp t |}.
+     t_resp := t_resp t; t_allow := t_allow t |}.
 
 (* one rule that matched: non-disruptive actions once per matched value, then the disruptive
    action, then MatchRule *)
@@ -246,13 +260,78 @@ Definition fire (c : cfg) (r : rule) (t : tx) : tx :=
 
 Definition is_some {A} (o : option A) : bool := match o with Some _ => true | None => false end.
 
-(* RuleGroup.Eval for one phase *)
-Definition eval_step (c : cfg) (p : N) (t : tx) (r : rule) : tx :=
-  if negb (r_phase r =? p) then t
-  else if is_some (t_intr t) && negb (p =? 5) then t
-  else match r_nmatch r with O => t | S _ => fire c r t end.
+Definition set_allow (t : tx) (a : allowk) : tx :=
+  {| t_ae := t_ae t; t_parts := t_parts t; t_re := t_re t; t_intr := t_intr t; t_det := t_det t;
+     t_audit := t_audit t; t_matched := t_matched t; t_cbs := t_cbs t; t_resp := t_resp t; t_allow := a |}.
+
+(* the head matched but a chained rule did not: only the head's non-disruptive actions have run *)
+Definition pre_fire (r : rule) (t : tx) : tx :=
+  Nat.iter (r_nmatch r) (fun t' => fold_left apply_ctl (r_ctls r) t') t.
+
+(* state of one pass of RuleGroup.Eval: tx.Skip, tx.SkipAfter, "the loop was left by break" *)
+Record flow := { w_skip : nat; w_after : option N; w_break : bool }.
+Definition flow0 : flow := {| w_skip := 0; w_after := None; w_break := false |}.
+
+Definition marker_is (r : rule) (m : N) : bool :=
+  match r_marker r with Some x => x =? m | None => false end.
+
+(* flow / allow actions of a rule whose chain matched (skip, skipAfter set whatever the engine mode;
+   Transaction.Allow only when the engine is On) *)
+Definition flow_actions (r : rule) (st : flow * tx) : flow * tx :=
+  let '(w, t) := st in
+  ({| w_skip := match r_skip r with O => w_skip w | n => n end;
+      w_after := match r_after r with Some m => Some m | None => w_after w end;
+      w_break := w_break w |},
+   match r_allow r with
+   | ANone => t
+   | a => match t_re t with REOn => set_allow t a | _ => t end
+   end).
+
+(* RuleGroup.Eval, one rule of the list *)
+Definition eval_step (c : cfg) (p : N) (st : flow * tx) (r : rule) : flow * tx :=
+  let '(w, t) := st in
+  if w_break w then st
+  else if is_some (t_intr t) && negb (p =? 5) then st
+  else if negb ((r_phase r =? p) || is_some (r_marker r)) then st
+  else match w_after w with
+  | Some m => if marker_is r m then ({| w_skip := w_skip w; w_after := None; w_break := false |}, t) else st
+  | None =>
+    match w_skip w with
+    | S k => ({| w_skip := k; w_after := None; w_break := false |}, t)
+    | O =>
+      match t_allow t with
+      | APhase => ({| w_skip := 0; w_after := None; w_break := true |}, t)
+      | ARequest =>
+        if p =? 1 then ({| w_skip := 0; w_after := None; w_break := true |}, t)
+        else if p =? 2 then ({| w_skip := 0; w_after := None; w_break := true |}, set_allow t ANone)
+        else (if is_some (r_marker r) then st else
+              match r_nmatch r with
+              | O => st
+              | S _ => if chain_ok r then flow_actions r (w, fire c r t) else (w, pre_fire r t)
+              end)
+      | AAll =>
+        if negb (p =? 5) then ({| w_skip := 0; w_after := None; w_break := true |}, t)
+        else (if is_some (r_marker r) then st else
+              match r_nmatch r with
+              | O => st
+              | S _ => if chain_ok r then flow_actions r (w, fire c r t) else (w, pre_fire r t)
+              end)
+      | ANone =>
+        if is_some (r_marker r) then st else
+        match r_nmatch r with
+        | O => st
+        | S _ => if chain_ok r then flow_actions r (w, fire c r t) else (w, pre_fire r t)
+        end
+      end
+    end
+  end.
+
+(* end of the pass: allow:phase ends with the phase; Skip and SkipAfter do not survive it *)
+Definition end_phase (t : tx) : tx :=
+  match t_allow t with APhase => set_allow t ANone | _ => t end.
+
 Definition eval_phase (c : cfg) (p : N) (rules : list rule) (t : tx) : tx :=
-  fold_left (eval_step c p) rules t.
+  end_phase (snd (fold_left (eval_step c p) rules (flow0, t))).
 
 (* Process{RequestHeaders,RequestBody,ResponseHeaders,ResponseBody}: nothing happens when the rule
    engine is Off or an interruption exists *)
@@ -261,7 +340,7 @@ Definition gate (t : tx) : bool :=
 
 Definition set_resp (t : tx) (s : bytes) : tx :=
   {| t_ae := t_ae t; t_parts := t_parts t; t_re := t_re t; t_intr := t_intr t; t_det := t_det t;
-     t_audit := t_audit t; t_matched := t_matched t; t_cbs := t_cbs t; t_resp := s |}.
+     t_audit := t_audit t; t_matched := t_matched t; t_cbs := t_cbs t; t_resp := s; t_allow := t_allow t |}.
 
 Record script := {
   x_rules : list rule;    (* the rule set, in configuration order *)
